@@ -46,6 +46,8 @@ pub open spec fn int_xor(a: int, b: int) -> int {
 }
 
 // ---- bit-vector operators at width w (operands are naturals below 2^w) --------------------
+// The operators are opaque: a proof must `reveal(bv_xxx)` to see the definition. Callers that only
+// pass results around (eval, analyses) never unfold them, which keeps their queries small.
 pub open spec fn bv(w: nat, a: nat) -> bool { a < pow2(w) }
 
 /// signed (two's-complement) value
@@ -60,27 +62,47 @@ pub open spec fn enc(w: nat, x: int) -> nat { (x % (pow2(w) as int)) as nat }
 
 pub open spec fn b2n(b: bool) -> nat { if b { 1 } else { 0 } }
 
+#[verifier::opaque]
 pub open spec fn bv_add(w: nat, a: nat, b: nat) -> nat { (a + b) % pow2(w) }
+#[verifier::opaque]
 pub open spec fn bv_sub(w: nat, a: nat, b: nat) -> nat { enc(w, a as int - b as int) }
+#[verifier::opaque]
 pub open spec fn bv_mul(w: nat, a: nat, b: nat) -> nat { (a * b) % pow2(w) }
+#[verifier::opaque]
 pub open spec fn bv_divu(w: nat, a: nat, b: nat) -> nat recommends b != 0 { a / b }
+#[verifier::opaque]
 pub open spec fn bv_modu(w: nat, a: nat, b: nat) -> nat recommends b != 0 { a % b }
+#[verifier::opaque]
 pub open spec fn bv_divs(w: nat, a: nat, b: nat) -> nat recommends b != 0 { enc(w, trunc_div(sval(w, a), sval(w, b))) }
+#[verifier::opaque]
 pub open spec fn bv_mods(w: nat, a: nat, b: nat) -> nat recommends b != 0 { enc(w, trunc_rem(sval(w, a), sval(w, b))) }
+#[verifier::opaque]
 pub open spec fn bv_and(w: nat, a: nat, b: nat) -> nat { nat_and(a, b) }
+#[verifier::opaque]
 pub open spec fn bv_or(w: nat, a: nat, b: nat) -> nat { nat_or(a, b) }
+#[verifier::opaque]
 pub open spec fn bv_xor(w: nat, a: nat, b: nat) -> nat { nat_xor(a, b) }
+#[verifier::opaque]
 pub open spec fn bv_shl(w: nat, a: nat, s: nat) -> nat { if s >= w { 0 } else { (a * pow2(s)) % pow2(w) } }
+#[verifier::opaque]
 pub open spec fn bv_shr(w: nat, a: nat, s: nat) -> nat { if s >= w { 0 } else { a / pow2(s) } }
+#[verifier::opaque]
 pub open spec fn bv_ashr(w: nat, a: nat, s: nat) -> nat {
     if s >= w { if sval(w, a) < 0 { (pow2(w) - 1) as nat } else { 0 } } else { enc(w, sval(w, a) / (pow2(s) as int)) }
 }
+#[verifier::opaque]
 pub open spec fn bv_cmpeq(a: nat, b: nat) -> nat { b2n(a == b) }
+#[verifier::opaque]
 pub open spec fn bv_cmpneq(a: nat, b: nat) -> nat { b2n(a != b) }
+#[verifier::opaque]
 pub open spec fn bv_cmpltu(a: nat, b: nat) -> nat { b2n(a < b) }
+#[verifier::opaque]
 pub open spec fn bv_cmplts(w: nat, a: nat, b: nat) -> nat { b2n(sval(w, a) < sval(w, b)) }
+#[verifier::opaque]
 pub open spec fn bv_zext(a: nat) -> nat { a }
+#[verifier::opaque]
 pub open spec fn bv_sext(w: nat, w2: nat, a: nat) -> nat { enc(w2, sval(w, a)) }
+#[verifier::opaque]
 pub open spec fn bv_trun(w2: nat, a: nat) -> nat { a % pow2(w2) }
 
 // ---- lemmas --------------------------------------------------------------------------------
